@@ -224,9 +224,9 @@ def check_c08(tier, replay=None):
         c = json.load(open(replay))
         cases.append(dict(c, id=1))
     else:
-        extra = walk_fens(wd, rng, SPARSE[:6], 12 if T else 4, 40)
+        extra = walk_fens(wd, rng, SPARSE[:6], 40 if T else 4, 40)
         extra = [f for f in dict.fromkeys(extra)]
-        sparse = SPARSE + rng.sample(extra, min(len(extra), 60 if T else 8))
+        sparse = SPARSE + rng.sample(extra, min(len(extra), 200 if T else 8))
         warm = [{"fen": DENSE[1], "d": 2}, {"fen": SPARSE[0], "d": 3}]
         for f in (sparse if T else rng.sample(sparse, 14)):
             parts = f.split(" ")
@@ -242,12 +242,12 @@ def check_c08(tier, replay=None):
                 go_case(cases, flip_fen(f), 1, "ab", flipof=a["id"], w=40, why="colour-flipped twin")
                 go_case(cases, f, 2, "ab", cap=400000, w=300, why="dense position depth 2, alpha-beta reference")
         # deeper searches, where transpositions do reach the table: every table decision the search logs (hook H6) against TTRule
-        for f in rng.sample(sparse, min(len(sparse), 24 if T else 8)) + (DENSE if T else rng.sample(DENSE, 2)):
+        for f in rng.sample(sparse, min(len(sparse), 80 if T else 8)) + (DENSE if T else rng.sample(DENSE, 2)):
             go_case(cases, f, rng.choice([4, 5]) if f not in DENSE else 4, "ab", mode="free", warm=warm if rng.random() < 0.3 else (), w=30,
                     why="deeper search: table decisions only", ttcap=2000)
         # carry-over: another game went through these very positions on the same engine before (position commands only); this game is
         # its bare FEN - no repetition history - so the exact value must be that of a fresh engine ("irrespective of what was searched before")
-        for _ in range(40 if T else 6):
+        for _ in range(120 if T else 6):
             white_strong = rng.random() < 0.5
             board = {6: "K", 62: "k", 1: "N", 57: "n", 15: "P", 55: "p"}
             board[3 if white_strong else 59] = "Q" if white_strong else "q"
@@ -341,15 +341,15 @@ def check_c10(tier, replay=None):
         cases.append(dict(c, id=1))
     else:
         # (1) the repetition counter against its contract, every equality pattern
-        for ln in range(0, 13 if T else 10):
+        for ln in range(0, 14 if T else 10):
             for base in ([0, 1, 3, 100, 4980 - ln] if T else [0, 3, 100]):
                 cases.append({"id": len(cases) + 1, "family": "search", "k": "reps", "len": ln, "hmax": 15, "base": base, "w": 1 + (1 << ln) // 20,
                               "why": "count_repetitions on every pattern", "key": ["reps", ln, base]})
         # (2) end to end: histories with repetitions at various distances
-        for fen, moves, nxt in shuffle_histories(rng, 1500 if T else 160):
+        for fen, moves, nxt in shuffle_histories(rng, 5000 if T else 160):
             go_case(cases, fen, 1, "plain", mode="rep", moves=moves, sm=[nxt], w=3, why="history with shuttling pieces; search the move that may complete a threefold repetition")
         # (2a) another game was set up on the same engine before: its positions must not count as occurrences of this game
-        for _ in range(300 if T else 40):
+        for _ in range(1000 if T else 40):
             white_strong = rng.random() < 0.5
             board = {6: "K", 62: "k", 1: "N", 57: "n", 15: "P", 55: "p"}
             board[3 if white_strong else 59] = "Q" if white_strong else "q"
